@@ -600,26 +600,33 @@ def check_emission(ctx, repo):
     unary_ops = [n for n, row in reg.items() if "Unary" in row.dict_class]
     q = f"{TR}.binary_operator"
     fn = ctx.func(q)
-    for other_kind in ("recorder", "number"):
+    for other_kind, number in (("recorder", None), ("number", 5), ("number", 1), ("number", 0)):
         bad_ops = []
         for requested in binary_ops:
             calls.clear()
             alg = algebra()
             a = rec("EXPR_A", "KEYS_A", alg)
-            b = rec("EXPR_B", "KEYS_B", alg) if other_kind == "recorder" else 5
+            b = rec("EXPR_B", "KEYS_B", alg) if other_kind == "recorder" else number
             it = make_interp(repo)
-            c = f"{q}#{other_kind}"
+            c = f"{q}#{other_kind}" + (f" {number}" if number not in (None, 5) else "")
             try:
                 out = it.run(q, [a, b, requested])
             except NoValue as exc:
                 raise Unknown(c, str(exc), fn)
             expr, keys = result_fields(out[1]) if out[0] == "return" else (None, None)
+            identity_for_one = ("gp", "div", "op", "ip", "rc")     # x (.) 1 = x by the operators' definitions
+            if out[0] == "return" and out[1] is a and not (number == 1 and requested in identity_for_one):
+                # the recorder itself comes back: nothing is recorded, i.e. the operation is taken for the identity
+                bad_ops.append(f"{requested} with the {other_kind} {number!r} records nothing and returns its left operand unchanged")
+                continue
+            if out[0] == "return" and out[1] is a:
+                continue            # x * 1 and x / 1 ARE x
             if expr is None or len(calls) != 1:
                 raise Unknown(c, f"unrecognised result {out!r} after {len(calls)} cache lookups (operator {requested})", fn)
             opname, key = calls[0]
             want_key = ("KEYS_A", "KEYS_B") if other_kind == "recorder" else ("KEYS_A", (0,))
             got_key = tuple(k.attrs["fmt"] if isinstance(k, Obj) else k for k in key) if isinstance(key, tuple) else key
-            want_expr = "FN1(EXPR_A, EXPR_B)" if other_kind == "recorder" else "FN1(EXPR_A, (5,))"
+            want_expr = "FN1(EXPR_A, EXPR_B)" if other_kind == "recorder" else f"FN1(EXPR_A, ({number},))"
             problems = []
             if opname != requested:
                 problems.append(f"operator {requested!r} requested, {opname!r} looked up and recorded")
@@ -664,7 +671,8 @@ def check_emission(ctx, repo):
         ctx.ok(q, fn, operators=len(unary_ops))
 
 
-@rule("C11.emission-pairing", props=["C11", "C03"], min_instances=3, mutants=[
+@rule("C11.emission-pairing", props=["C11", "C03"], min_instances=5, mutants=[
+    ("the number 1 is taken for the identity of every operator", ("taperecorder", "            # Assume scalar\n", "            # Assume scalar\n            if other == 1:\n                return self\n")),
     ("products with a plain number are recorded as the geometric product", ("taperecorder", "            # Assume scalar\n", "            if operator in ('op', 'ip', 'lc', 'rc', 'sp', 'acp'):\n                operator = 'gp'\n")),
     ("emit operands in swapped order", ("taperecorder", "expr = f'{func.__name__}({self.expr}, {other.expr})'", "expr = f'{func.__name__}({other.expr}, {self.expr})'")),
     ("swapped lookup key", ("taperecorder", "getattr(self.algebra, operator)[self.keys(), other.keys()]", "getattr(self.algebra, operator)[other.keys(), self.keys()]")),
@@ -673,6 +681,42 @@ def check_emission(ctx, repo):
 def emission_pairing(ctx):
     """Emitted callee name, recorded keys and operand expressions come from one lookup, in operand order."""
     check_emission(ctx, ctx.repo)
+
+
+# --------------------------------------------------------------------------- the recorder keeps what it is given
+@rule("C11.recorder-keys", props=["C11", "C02", "C08"], min_instances=3, mutants=[
+    ("recorders store their keys in canonical order", ("taperecorder", "        obj._keys = keys\n", "        obj._keys = tuple(k for k in algebra.canon2bin.values() if k in keys)\n")),
+    ("recorders store their keys sorted", ("taperecorder", "        obj._keys = keys\n", "        obj._keys = tuple(sorted(keys))\n")),
+])
+def recorder_keys(ctx):
+    """A recorder stands for an argument whose values arrive in the argument's own storage order: it must keep the key
+    tuple it is created with, in that order (the functions it records are looked up, and compiled, for that order)."""
+    from ..absint import ClassRef
+    from ..symenv import rep_algebra
+    repo = ctx.repo
+    q = "taperecorder.TapeRecorder.__new__"
+    fn = ctx.func(q)
+    for keys in ((4, 1, 2), (6, 5, 3, 0), (7, 0)):
+        c = f"{q}#keys={keys}"
+        alg = rep_algebra(3)
+        it = make_interp(repo)
+        it.algebra = alg
+        try:
+            out = it.run(q, [ClassRef("TapeRecorder"), alg, "a", keys])
+        except NoValue as exc:
+            raise Unknown(c, str(exc), fn)
+        if out[0] == "raise" or not isinstance(out[1], Obj):
+            ctx.violation(c, f"creating a recorder with keys {keys} gives {out!r}", fn)
+            continue
+        try:
+            got = it.call(it.getattr_value(out[1], "keys"), [], {})
+        except NoValue as exc:
+            raise Unknown(c, str(exc), fn)
+        if isinstance(got, (tuple, list)) and tuple(got) == keys:
+            ctx.ok(c, fn)
+        else:
+            ctx.violation(c, f"a recorder created with keys {keys} reports keys {got!r}: the functions recorded for it are generated for "
+                             f"another storage order than the one its values arrive in, so coefficients land on the wrong blades", fn)
 
 
 # --------------------------------------------------------------------------- do_compile template
